@@ -226,3 +226,116 @@ def r_hplayout(idx, rep, rule="R-HPLAYOUT"):
             rep.check(bad is None, rule, key, "%s:%d" % (mm.relpath, bad[0].lineno if bad else f.node.lineno),
                       "`%s` cuts the (px, py | dx, dy) layout in the middle of a pair: only one coordinate of the point / direction is used, so two parallel but "
                       "offset border lines compare as equal (or a 2-D quantity is silently truncated)" % (bad[1] if bad else ""), "%d slices" % n)
+
+
+def r_shortcuts(idx, rep, rule="R-SHORTCUTS"):
+    """hill climbing escapes plateaus through six shortcut vertices: the extreme vertices along +x, +y, +z, -x, -y, -z of the mesh frame"""
+    rep.rule(rule, "MeshHillClimbingSupportFunction: the shortcut vertices are the extremes along all six signed axes (argmax/argmin over each "
+                   "column, or a direction table whose rows are exactly the six signed unit vectors)", floor=1)
+    ci = idx.module("distance3d.mesh").classes.get("MeshHillClimbingSupportFunction")
+    init = ci.methods.get("__init__") if ci else None
+    if init is None:
+        raise AnalysisError("MeshHillClimbingSupportFunction.__init__ vanished")
+    asg = [st for st in ast.walk(init.node) if isinstance(st, ast.Assign) and u(st.targets[0]) == "self.shortcut_connections"]
+    if not asg:
+        raise AnalysisError("self.shortcut_connections is no longer assigned in __init__")
+    st = asg[-1]
+    key = init.key + "|six signed axis extremes"
+    where = "%s:%d" % (init.module.relpath, st.lineno)
+    got = set()
+    for c in ast.walk(st.value):
+        if isinstance(c, ast.Call) and call_name(c) in ("np.argmax", "np.argmin") and c.args and isinstance(c.args[0], ast.Subscript):
+            sl = c.args[0].slice
+            k = const(sl.elts[-1]) if isinstance(sl, ast.Tuple) else None
+            if isinstance(k, int):
+                got.add(("+" if call_name(c) == "np.argmax" else "-", k))
+    want = {(s, k) for s in "+-" for k in range(3)}
+    if got:
+        rep.check(got == want, rule, key, where, "the shortcut vertices cover %s instead of all six signed axes %s: a plateau facing a missing direction cannot be left"
+                  % (sorted(got), sorted(want)), "6 extremes")
+        return
+    # direction-table form: argmax(vertices . D^T) with a literal table D
+    tables = {}
+    for s2 in ast.walk(init.node):
+        if isinstance(s2, ast.Assign) and isinstance(s2.targets[0], ast.Name) and isinstance(s2.value, ast.Call) and call_name(s2.value) == "np.array" and s2.value.args:
+            try:
+                tables[s2.targets[0].id] = ast.literal_eval(s2.value.args[0])
+            except Exception:
+                pass
+    used = [n.id for n in ast.walk(st.value) if isinstance(n, ast.Name) and n.id in tables]
+    maxmin = [call_name(c) for c in ast.walk(st.value) if isinstance(c, ast.Call) and call_name(c) in ("np.argmax", "np.argmin")]
+    if used and maxmin == ["np.argmax"]:
+        rows = {tuple(float(x) for x in r) for r in tables[used[0]]}
+        wantrows = {tuple(float(s) if i == k else 0.0 for i in range(3)) for k in range(3) for s in (1.0, -1.0)}
+        rep.check(rows == wantrows and len(tables[used[0]]) == 6, rule, key, where,
+                  "the direction table has the rows %s; the six signed unit vectors are required (a duplicated / missing direction loses one shortcut vertex, "
+                  "so hill climbing can stall on a flat face opposite to it)" % sorted(rows), "6 directions")
+        return
+    rep.unknown(rule, key, where, "construction of the shortcut vertices not recognised")
+
+
+def r_anglesort(idx, rep, rule="R-ANGLESORT"):
+    """contact polygon vertices are put in counter-clockwise order by the polar angle atan2(y, x) about the centroid"""
+    rep.rule(rule, "order_points sorts by np.arctan2(y, x) of the centred points (a hand-made pseudo-angle with np.sign(y) maps the whole negative x axis "
+                   "to angle 0 because sign(0) == 0: bow-tie polygons)", floor=1, unknown_ceiling=0)
+    f = idx.func("distance3d.hydroelastic_contact._tetrahedron_intersection::order_points")
+    sorts = [c for c in ast.walk(f.node) if isinstance(c, ast.Call) and call_name(c) == "np.argsort" and c.args]
+    if not sorts:
+        raise AnalysisError("order_points: np.argsort not found")
+    k = sorts[0].args[0]
+    val = k
+    if isinstance(k, ast.Name):
+        ds = [st.value for st in ast.walk(f.node) if isinstance(st, ast.Assign) and u(st.targets[0]) == k.id]
+        val = ds[-1] if ds else k
+    key = f.key + "|sort key is the polar angle"
+    where = "%s:%d" % (f.module.relpath, sorts[0].lineno)
+    if isinstance(val, ast.Call) and call_name(val) == "np.arctan2" and len(val.args) == 2:
+        y, x = val.args
+        ok = isinstance(y, ast.Subscript) and isinstance(x, ast.Subscript) and u(y.value) == u(x.value) and u(y.slice).replace(" ", "") in (":,1", "(:,1)") \
+            and u(x.slice).replace(" ", "") in (":,0", "(:,0)")
+        rep.check(ok, rule, key, where, "arctan2 is applied to `%s`, `%s` instead of (y, x) of the centred points" % (u(y), u(x)), "arctan2(y, x)")
+    elif any(isinstance(c, ast.Call) and call_name(c) == "np.sign" for c in ast.walk(val)):
+        rep.bad(rule, key, where, "the sort key `%s` is built with np.sign: sign(0) == 0 sends a vertex with y exactly equal to the centroid's y and x to its left to "
+                                  "angle 0 instead of pi, so the polygon is ordered as a self-intersecting bow-tie (axis-aligned stacking)" % u(val)[:90])
+    else:
+        rep.unknown(rule, key, where, "sort key `%s` is not np.arctan2(y, x)" % u(val)[:80])
+
+
+def r_parallelsign(idx, rep, modules, rule="R-PARALLELSIGN", floor=1):
+    """parallelism of two directions / normals does not depend on their orientation: n1 || n2 iff |n1.n2| = 1 iff |n1 x n2| = 0"""
+    rep.rule(rule, "tests for (non-)parallel directions are orientation independent: norm(cross(d1, d2)), 1 - (d1.d2)^2 or abs(d1.d2) — never the "
+                   "signed inner product against 1 - eps (anti-parallel normals are parallel planes)", floor=floor)
+    from ..engines.frames import DIR_WORDS
+    from ..core.astutil import dot_args, parent_map
+    for mname in modules:
+        m = idx.modules.get(mname)
+        if m is None:
+            continue
+        for f in m.functions.values():
+            dirs = {p for p in f.params() if any(w in p.lower() for w in DIR_WORDS)}
+            if len(dirs) < 2:
+                continue
+            pm = None
+            sites = 0
+            bad = None
+            for c in ast.walk(f.node):
+                if isinstance(c, ast.Compare) and len(c.ops) == 1:
+                    for side, other in ((c.left, c.comparators[0]), (c.comparators[0], c.left)):
+                        da = dot_args(side)
+                        if da and all(isinstance(x, ast.Name) and x.id in dirs for x in da) and da[0].id != da[1].id:
+                            sites += 1
+                            # signed dot compared with something that is not 0: orientation dependent parallel test
+                            if not (isinstance(other, ast.Constant) and other.value in (0, 0.0)):
+                                bad = c
+                if isinstance(c, ast.Call) and call_name(c) == "np.linalg.norm" and c.args and isinstance(c.args[0], ast.Call) and call_name(c.args[0]) == "np.cross":
+                    sites += 1
+            for st in ast.walk(f.node):
+                if isinstance(st, ast.Assign) and isinstance(st.value, ast.Call) and call_name(st.value) == "np.cross" \
+                        and all(isinstance(a, ast.Name) and a.id in dirs for a in st.value.args):
+                    sites += 1
+            if sites == 0:
+                continue
+            key = "%s|parallel test is orientation independent" % f.key
+            rep.check(bad is None, rule, key, "%s:%d" % (m.relpath, bad.lineno if bad else f.node.lineno),
+                      "`%s` decides parallelism from the SIGNED inner product of two directions: anti-parallel normals (n2 = -n1, the same plane family) give -1 and "
+                      "take the 'not parallel' branch, where the intersection line is degenerate" % (u(bad) if bad else ""), "orientation independent")
